@@ -232,7 +232,7 @@ Section Machine.
   Inductive hobs :=
   | OOp (tr : list event)                     (* a Cancel / Uncancel between executions *)
   | OExec (r : option err) (steps_after : N) (tr : list event)
-  | OStuck.                                    (* the schedule ended before the execution did *)
+  | OStuck (tr : list event).                  (* the schedule ended before the execution did *)
 
   Fixpoint life (t : thread) (h : list hevent) : thread * list hobs :=
     match h with
@@ -242,7 +242,7 @@ Section Machine.
     | HEvExec s sched :: h' =>
         match run (start t s) sched with
         | (Finished t' _ r, tr) => let (t2, o) := life t' h' in (t2, OExec r (steps t') tr :: o)
-        | (Running c, _) => (th c, [OStuck])
+        | (Running c, tr) => (th c, [OStuck tr])
         end
     end.
 End Machine.
@@ -253,6 +253,14 @@ Arguments HReturn {St}. Arguments HFail {St}.
 Arguments Running {St}. Arguments Finished {St}.
 Arguments mkConfig {St}. Arguments th {St}. Arguments stk {St}. Arguments st {St}. Arguments perr {St}.
 Arguments HEvCancel {St}. Arguments HEvUncancel {St}. Arguments HEvExec {St}.
+
+Fixpoint life_trace (l : list hobs) : list event :=
+  match l with
+  | [] => []
+  | OOp tr :: r => tr ++ life_trace r
+  | OExec _ _ tr :: r => tr ++ life_trace r
+  | OStuck tr :: r => tr ++ life_trace r
+  end.
 
 Definition count_ev (f : event -> bool) (tr : list event) : nat := length (filter f tr).
 Definition is_dispatch (e : event) := match e with EvDispatch => true | _ => false end.
